@@ -331,7 +331,8 @@ def all_trees(ls):
 def run_impl(fn):
     try:
         return ("ok", fn())
-    except (ValueError, TypeError, IndexError) as e:
+    except (ValueError, TypeError, IndexError, AssertionError, ZeroDivisionError, AttributeError, KeyError) as e:
+        # (an AssertionError raised inside quara must not be taken for a failure of the harness itself)
         return ("err", type(e).__name__, str(e)[:200])
 
 
@@ -455,7 +456,7 @@ def sub_perm(ctx):
     rng = ctx.rng
     cases = []
     cl = []
-    for i in range(ctx.n(12, 80) if not getattr(ctx, "widen", False) else 80):
+    for i in range(ctx.n(8, 80) if not getattr(ctx, "widen", False) else 80):
         n = rng.choice([1, 2, 3, 4, 5]); m = n if i % 2 == 0 else rng.choice([1, 2, 3, 4, 5])
         if i % 2 == 0:
             pi = list(range(n)); rng.shuffle(pi)
@@ -472,7 +473,7 @@ def sub_perm(ctx):
                 cases.append({"names": [int(p) * 3 + 1 for p in perm], "sizes": pool[:n], "seed": rng.randrange(10 ** 6)})
     # seeded sample, 3-6 subsystems; the dense N x N matmuls of the implementation bound N (one swap costs N^3)
     cap = ctx.n(300, 1000)
-    for _ in range(ctx.n(20, 200) if not getattr(ctx, "widen", False) else 120):
+    for _ in range(ctx.n(12, 200) if not getattr(ctx, "widen", False) else 120):
         n = rng.choice([3, 4, 4, 5, 5, 6])
         names = rng.sample(range(0, 40), n)
         sizes = [rng.choice([1, 2, 2, 3, 3, 4]) for _ in range(n)]
@@ -684,11 +685,11 @@ def exhaustive_tree_cases(ctx, typ, dims, names_sorted, nouts, sub=None):
 
 def sub_state(ctx):
     cases = exhaustive_tree_cases(ctx, "state", [2, 3, 2], [1, 4, 6], [0, 0, 0])
-    cases += exhaustive_tree_cases(ctx, "state", [2, 2, 2, 2], [0, 2, 3, 7], [0] * 4)[:: (9 if ctx.quick else 1)]
+    cases += exhaustive_tree_cases(ctx, "state", [2, 2, 2, 2], [0, 2, 3, 7], [0] * 4)[:: (12 if ctx.quick else 1)]
     if not ctx.quick:
         cases += exhaustive_tree_cases(ctx, "state", [2, 3, 2, 2], [0, 2, 3, 7], [0] * 4)
         cases += exhaustive_tree_cases(ctx, "state", [3, 2, 3], [1, 4, 6], [0, 0, 0])
-    cases += gen_tree_cases(ctx, "state", [2, 3, 3, 4], ctx.n(20, 300), composite_leaf_prob=0.25)
+    cases += gen_tree_cases(ctx, "state", [2, 3, 3, 4], ctx.n(14, 300), composite_leaf_prob=0.25)
     if not ctx.quick:
         # five subsystems at object level (quara needs ~1 minute for the 5-qubit composite basis): one left chain, names out of order
         cases.append({"typ": "state", "sub": "state", "tree": [[[[0, 1], 2], 3], 4], "varargs": True,
@@ -698,11 +699,11 @@ def sub_state(ctx):
 
 
 def sub_povm(ctx):
-    cases = exhaustive_tree_cases(ctx, "povm", [2, 3, 2], [1, 4, 6], [2, 3, 4])
+    cases = exhaustive_tree_cases(ctx, "povm", [2, 3, 2], [1, 4, 6], [2, 3, 4])[:: (2 if ctx.quick else 1)]
     if not ctx.quick:
         cases += exhaustive_tree_cases(ctx, "povm", [2, 2, 2, 2], [0, 2, 3, 7], [1, 2, 3, 4])
         cases += exhaustive_tree_cases(ctx, "povm", [3, 2, 2], [1, 4, 6], [3, 5, 2])
-    cases += gen_tree_cases(ctx, "povm", [2, 3, 3, 4] if not ctx.quick else [2, 3, 3], ctx.n(12, 150))
+    cases += gen_tree_cases(ctx, "povm", [2, 3, 3, 4] if not ctx.quick else [2, 3, 3], ctx.n(8, 150))
     if ctx.quick:
         cases += exhaustive_tree_cases(ctx, "povm", [2, 2, 2, 2], [0, 2, 3, 7], [1, 2, 3, 4])[3::17]
     ctx.sample("povm", cases[7])
@@ -716,10 +717,10 @@ def sub_gate(ctx):
     for k, c in enumerate(c3):
         if ctx.quick or k % 4:
             c["leaves"] = [dict(sp, phys=False) for sp in c["leaves"]]
-    cases = c3[:: (6 if ctx.quick else 1)]
-    cases += exhaustive_tree_cases(ctx, "gate", [2, 3], [5, 2], [0, 0])
-    cases += gen_tree_cases(ctx, "gate", [2, 2, 3] if not ctx.quick else [2], ctx.n(3, 40))
-    ctx.sample("gate", cases[3])
+    cases = c3[:: (12 if ctx.quick else 1)]
+    cases += exhaustive_tree_cases(ctx, "gate", [2, 3], [5, 2], [0, 0])[:: (2 if ctx.quick else 1)]
+    cases += gen_tree_cases(ctx, "gate", [2, 2, 3] if not ctx.quick else [2], ctx.n(2, 40))
+    ctx.sample("gate", cases[2])
     ctx.run_cases("gate", chk_tree, cases)
 
 
@@ -865,7 +866,7 @@ def sub_mprocess(ctx):
     # operand already has a multi-dimensional shape, and hs(multi-index) is the product of the indexed outcomes
     chains = []
     pats = [["m", "m", "m"], ["m", "m", "g"], ["g", "m", "m"], ["m", "g", "m"]]
-    for i in range(ctx.n(3, 16) if not getattr(ctx, "widen", False) else 16):
+    for i in range(ctx.n(2, 16) if not getattr(ctx, "widen", False) else 16):
         names = rng.sample(range(0, 9), 3)
         chains.append({"chain": pats[i % 4], "nest": ["varargs", "left", "right", "left"][i % 4] if i < 4 else ["varargs", "left", "right"][i % 3], "names": names,
                        "nouts": rng.sample([2, 3, 2, 4], 3) if i % 2 else [2, 3, 2], "seeds": [rng.randrange(10 ** 9) for _ in range(3)]})
